@@ -89,6 +89,7 @@ class ContractSet:
         self.finite_checks = []     # callables returning list of (name, ok, detail)
         self.mutants = []           # mutation catalogue
         self.native_setup = None
+        self.opaque_info = {}       # opaque sort -> fn(I, concretizer, val, heap) -> dict of ghost facts for replay
         self.havoc_hooks = {}       # (class, field) -> fn(I, obj): custom havoc of ghost fields
         self.replay = {}
 
